@@ -208,15 +208,18 @@ def handlerFor (s : State) (c : Condition) : FaultHandlerAction :=
   | some e => e.2
   | none => .Cancel
 
-/-- `handle_fault`: returns the new state and whether the caller continues -/
-def handleFault (s : State) (c : Condition) (now : Nat) : State × Bool :=
-  let s := { s with condition := c }
-  let s := emit s (.fault s.condition (getProgress s))
+/-- `handle_fault`, second half: take the action configured for the condition (cancel when none
+is configured); returns the new state and whether the caller continues -/
+def dispatchFault (s : State) (c : Condition) (now : Nat) : State × Bool :=
   match handlerFor s c with
   | .Ignore => (s, true)
   | .Cancel => (cancelInner s now, false)
   | .Suspend => (suspend s now, false)
   | .Abandon => (abandon s now, false)
+
+/-- `handle_fault`: record the condition, tell the user (with the current progress), act -/
+def handleFault (s : State) (c : Condition) (now : Nat) : State × Bool :=
+  dispatchFault (emit { s with condition := c } (.fault c (getProgress s))) c now
 
 /-- `prepare_ack_eof` -/
 def prepareAckEof (s : State) : State :=
